@@ -706,6 +706,16 @@ func (e *c15Env) three(key string, f func(which int) (string, error)) string {
 }
 
 func c15Short(cfg *configpb.LogConfig) string {
+	cfg = proto.Clone(cfg).(*configpb.LogConfig)
+	if cfg.PublicKey != nil && len(cfg.PublicKey.Der) > 8 { // keep keys readable: length only
+		cfg.PublicKey.Der = []byte(fmt.Sprintf("<%d bytes>", len(cfg.PublicKey.Der)))
+	}
+	if cfg.PrivateKey != nil && len(cfg.PrivateKey.Value) > 80 {
+		cfg.PrivateKey.Value = nil
+	}
+	if f := cfg.FrozenSth; f != nil {
+		f.Sha256RootHash, f.TreeHeadSignature = []byte(fmt.Sprintf("<%d>", len(f.Sha256RootHash))), []byte(fmt.Sprintf("<%d>", len(f.TreeHeadSignature)))
+	}
 	s := prototext.MarshalOptions{}.Format(cfg)
 	s = strings.Join(strings.Fields(s), " ")
 	if len(s) > 300 {
@@ -715,7 +725,7 @@ func c15Short(cfg *configpb.LogConfig) string {
 }
 
 // tline writes the trace line. Inputs on which the implementation deviates from the property (each one is reported
-// through out.Fail) are compared with the model only three times per finding class; later ones carry `#skip`, so
+// through out.Fail) are compared with the model only twice per finding class (16 in total); later ones carry `#skip`, so
 // that a known finding cannot drown the correspondence diff. Nothing is skipped on a tree without the defects.
 func (e *c15Env) tline(op, tags, verdict string, wf bool) {
 	deviates := verdict == "panic" || (strings.HasPrefix(verdict, "ok") && !wf) || (verdict == "err" && wf)
@@ -724,7 +734,10 @@ func (e *c15Env) tline(op, tags, verdict string, wf bool) {
 			e.dev = map[string]int{}
 		}
 		e.dev[tags]++
-		if e.dev[tags] > 3 {
+		if e.dev[tags] <= 2 {
+			e.dev["*"]++
+		}
+		if e.dev[tags] > 2 || e.dev["*"] > 16 {
 			tags += " #skip"
 			e.out.Count("class:known-deviation-not-compared")
 		}
@@ -896,6 +909,17 @@ func (e *c15Env) opMulti() {
 				b.Name = fmt.Sprintf("%s%d", b.Name, i)
 				if r.Intn(4) == 0 {
 					b.Name += "-"
+				}
+			}
+			if i > 0 && r.Intn(6) == 0 { // duplicated specification / name / whole backend
+				prev := mc.Backends.Backend[r.Intn(i)]
+				switch r.Intn(3) {
+				case 0:
+					b.BackendSpec = prev.BackendSpec
+				case 1:
+					b.Name = prev.Name
+				default:
+					b = proto.Clone(prev).(*configpb.LogBackend)
 				}
 			}
 			mc.Backends.Backend = append(mc.Backends.Backend, b)
